@@ -36,7 +36,8 @@ BASE = {
     "V": ["~Version", "VERS. 2.0 : v", "WRAP. NO : w"],
     "W": ["~Well", "STRT.M 1.0 : s", "STOP.M 2.0 : e", "STEP.M 1.0 : i", "NULL. -999.25 : n", "COMP. ACME OIL & GAS COMPANY LIMITED : company", "BIG. 1234567.891 : big", "SML. -0.000012345 : small", "EXP. 1E5 : exp"],
     "C": ["~Curve", "DEPT..1IN : depth", "RHO.K/M3 : dup 1", "RHO.K/M3 : dup 2", ". : unnamed"],
-    "P": ["~Parameter", "NE.k : empty value with unit", "LONG.UNITS a rather long value field 1234567890 : a long description as well"],
+    "P": ["~Parameter", "NE.k : empty value with unit", "LONG.UNITS a rather long value field 1234567890 : a long description as well",
+          "REM .ANY this remark is a very long value field that runs well past eighty characters in total width 1234567890 : remark"],
     "A": ["~A", "1.0 10.5 2.25 -0.125", "2.0 -999.25 2.5 0.375"],
 }
 BOUNDS = {
@@ -67,16 +68,21 @@ EXCLUSIONS = {"line_parsed_into_a_mnemonic_starting_with_tilde": (_tilde_sym, _t
 
 def tasks(tier):
     b = BOUNDS[tier]
-    return [{"name": "%s/opts%d" % (sec, oi), "params": {"section": sec, "opts": oi, "cap": b["line_cap"]}} for sec in b["sections"] for oi in b["optsets"]]
+    out = [{"name": "%s/opts%d" % (sec, oi), "params": {"section": sec, "opts": oi, "cap": b["line_cap"], "base": "std"}} for sec in b["sections"] for oi in b["optsets"]]
+    out += [{"name": "%s/opts%d/dupnull" % (sec, oi), "params": {"section": sec, "opts": oi, "cap": b["line_cap"], "base": "dupnull"}} for sec in b["sections"][:1] for oi in (0, 1)]
+    return out
 
 
-def file_lines(section, L):
+def file_lines(section, L, base="std"):
     out = []
     for k in ("V", "W", "C", "P"):
         out += BASE[k]
+        if k == "W" and base == "dupnull":
+            out.append("NULL. -999.25 : a second NULL line")  # duplicated mnemonic with a per-version value/descr order
         if k == section:
             out.append(L)
-    return out + BASE["A"]
+    data = BASE["A"] if base == "std" else ["~A", "1.0 10.5 2.25 -0.125", "2.0 11.5 2.5 0.375"]
+    return out + data
 
 
 def pin(s):
@@ -98,7 +104,7 @@ def cycle(ns, las, opts):
 
 
 def harness(ns, params):
-    section, opts, cap = params["section"], OPTSETS[params["opts"]], params["cap"]
+    section, opts, cap, base = params["section"], OPTSETS[params["opts"]], params["cap"], params.get("base", "std")
 
     def run():
         A = core.assume
@@ -106,19 +112,19 @@ def harness(ns, params):
         L = SymStr.fresh("L", cap)
         A(allc(L, printable_ascii))
         A(z.Not(B(SymStr.lift(L.strip()).startswith("~"))))
-        inputs = {"section": section, "opts": params["opts"], "L": L}
+        inputs = {"section": section, "opts": params["opts"], "L": L, "base": base}
         cx = core.ctx()
         cx.inputs = inputs
         apply_exclusions(inputs)
         s1 = ns.las.LASFile()
         try:
-            s1.read(SymFile(file_lines(section, L)), engine="normal", mnemonic_case="preserve")
+            s1.read(SymFile(file_lines(section, L, base)), engine="normal", mnemonic_case="preserve")
         except core.Abort:
             raise
         except Exception:
             raise core.Abort("not an accepted input")
         sec = s1.sections[W.SECTIONS[section]]
-        nbase = len(BASE[section]) - 1
+        nbase = len(BASE[section]) - 1 + (1 if (section == "W" and base == "dupnull") else 0)
         items = list(list.__iter__(sec))
         if len(items) > nbase:
             core.witness("symbolic-line-parsed-as-item")
@@ -166,7 +172,7 @@ def replay(i):
     import lasio
 
     opts = OPTSETS[i["opts"]]
-    text = "\n".join(file_lines(i["section"], i["L"])) + "\n"
+    text = "\n".join(file_lines(i["section"], i["L"], i.get("base", "std"))) + "\n"
     try:
         s1 = lasio.read(text, engine="normal", mnemonic_case="preserve")
     except Exception as e:
